@@ -35,6 +35,16 @@ def main():
     replay = None
     if "--replay" in sys.argv:
         replay = sys.argv[sys.argv.index("--replay") + 1]
+    if replay and os.path.exists(replay):
+        # a replay file records the seed and tier of the run that produced it: every random choice derives
+        # from the seed, so re-running with them reproduces the violation (family checks may narrow further)
+        try:
+            rj = json.load(open(replay))
+            seed = int(rj.get("seed", seed))
+            tier = rj.get("tier", tier)
+            print("# replaying %s (seed %d, tier %s): %s" % (replay, seed, tier, str(rj.get("what", ""))[:200]))
+        except Exception:
+            pass
     fam = families()
     if pid not in fam:
         print("unknown property %s" % pid)
